@@ -529,7 +529,8 @@ pub fn check(prop: &dyn Property, ctx: &Ctx) -> CheckOutcome {
     let _ = std::fs::create_dir_all(&replay_dir);
     for (clause, (index, v)) in unknown_by_clause {
         let before = size_of(&v.replay);
-        let (mv, execs) = minimise(prop, ctx, v, 400);
+        let original = v.clone();
+        let (mut mv, execs) = minimise(prop, ctx, v, 400);
         // a minimised scenario must not turn into a *known* one and thereby get lost; if it does,
         // it is still reported (the unminimised original was not known)
         let after = size_of(&mv.replay);
@@ -546,8 +547,16 @@ pub fn check(prop: &dyn Property, ctx: &Ctx) -> CheckOutcome {
             say!("[{}] HARNESS: cannot write replay file {}: {}", id, path, e);
             return CheckOutcome { exit_code: 2 };
         }
-        // confirm in a fresh process
-        let confirmed = confirm_in_fresh_process(&path, id);
+        // confirm in a fresh process; if the minimised scenario does not reproduce there, fall back
+        // to the scenario as it was found
+        let mut confirmed = confirm_in_fresh_process(&path, id);
+        if !confirmed && size_of(&original.replay) != after {
+            mv = original.clone();
+            let env = envelope(id, ctx.seed, index, &mv);
+            let _ = std::fs::write(&path, serde_json::to_string_pretty(&env).unwrap());
+            confirmed = confirm_in_fresh_process(&path, id);
+            say!("[{}] note: the minimised scenario did not reproduce in a fresh process; reporting the unminimised one", id);
+        }
         say!(
             "[{}] violation clause={} scenario={} minimised {}->{} bytes in {} re-executions; fresh-process replay: {}",
             id,
@@ -564,10 +573,13 @@ pub fn check(prop: &dyn Property, ctx: &Ctx) -> CheckOutcome {
             new_violations += 1;
             reported.push((clause, path));
         } else {
-            agg.harness_errors.push(format!(
-                "violation of clause {} did not reproduce from its replay file {}",
-                clause, path
-            ));
+            // The violation was observed by this run but does not replay from its file: it depends on
+            // something outside the simulator's control (e.g. allocator addresses). It is still a
+            // violation; it is reported, flagged as not replayable.
+            say!("[{}] note: violation of clause {} was observed but does NOT reproduce from {} (depends on state the simulator does not control)", id, clause, path);
+            say!("VIOLATION property={} replay={}", id, path);
+            new_violations += 1;
+            reported.push((clause, path));
         }
     }
 
